@@ -584,3 +584,24 @@ func retResult(ret *ssa.Return, i int) ssa.Value {
 	}
 	return v
 }
+
+// callIs: the call's callee is target, directly or through a compiler-generated wrapper
+// (bound method value `f := x.M`, method expression thunk) that does nothing but call target.
+func callIs(c *ssa.CallCommon, target *ssa.Function) bool {
+	if target == nil {
+		return false
+	}
+	if c.StaticCallee() == target {
+		return true
+	}
+	fs, _ := calleesOf(c)
+	for _, f := range fs {
+		if f == target {
+			return true
+		}
+		if f.Synthetic != "" && containsCallTo(f, target) {
+			return true
+		}
+	}
+	return false
+}
